@@ -13,7 +13,7 @@ ToSet(s) == {s[i] : i \in 1..Len(s)}
 Pairs(L) == [i \in 1..Len(L.pairs) |-> <<L.pairs[i][1], L.pairs[i][2]>>]
 InitObs == /\ idx \in 1..Len(ObsLines)
            /\ nextMem = [d \in Descs |-> 0] /\ rangeMem = nextMem /\ nextDisk = nextMem /\ rangeDisk = nextMem
-           /\ nextDur = nextMem /\ rangeDur = nextMem /\ pc = Idle /\ ncrash = 0
+           /\ nextDur = nextMem /\ rangeDur = nextMem /\ pc = Idle /\ ncrash = 0 /\ lock = "plain" /\ hist = <<>>
            /\ returned = ToSet(Pairs(ObsLines[idx]))
            /\ dup = (Cardinality(ToSet(Pairs(ObsLines[idx]))) # Len(ObsLines[idx].pairs))
            /\ lastAct = <<"observed", idx>> /\ lastRes = <<"none">>
@@ -22,6 +22,6 @@ Stutter == UNCHANGED <<vars, idx>>
 ObsLoadOK == Line.load = "ok"
 \* the property on the address strings themselves
 ObsNoRepeatAddr == \A i, j \in 1..Len(Line.addrs) : i # j => Line.addrs[i] # Line.addrs[j]
-\* every request was answered
+\* every request the specification does not expect to fail was answered (failed = unexpected failures)
 ObsAllAnswered == Line.load = "ok" => Line.failed = 0
 ====
